@@ -36,8 +36,8 @@ CLAIMED = {
   "sampling; outside the second-stage bursts requests are atomic; cookie-session login runs on a shim of Flask-Login, JWT paths on the real library",
   TECH + "state-diff oracle attributing every durable change to one request"),
  "C17": ("exploration",
-  "an authorised manager actor issues seeded sequences of 4-28 management operations over the real API (create/edit/delete stream, upload of forged, fixture and truncated media, index, edit and delete media, add/edit/delete key, create/edit/delete multi-period stream, stream defaults) with existing and non-existing targets and repeated names, while restarts, duplicated requests and lost responses are injected; after every delivered request the durable state is read with a private sqlite3 connection and checked for referential consistency, unique names and ownership of deletions; liveness probes ask every listed stream / multi-period stream for manifests of random templates and modes (never 5xx) and every uploaded-and-indexed file is read back through the on-demand and segment routes. Second stage (one run in four): two or three management operations are served concurrently on baton-passing threads (pre-emption at every SQL statement, commit, rollback, blob save and unlink; SQLite lock waits are scheduled, a deadlock is resolved like a busy timeout); the same referential rules are checked on the state the burst leaves, and whether that state equals some sequential order of the requests is counted in the evidence",
-  "sampling; outside the bursts requests are atomic; process-crash and disk-error faults inside a request are not injected; linearizability of bursts is measured (probes) but not judged because no listed property states it",
+  "an authorised manager actor issues seeded sequences of 4-28 management operations over the real API (create/edit/delete stream, upload of forged, fixture and truncated media, index, edit and delete media, add/edit/delete key, create/edit/delete multi-period stream, stream defaults) with existing and non-existing targets and repeated names, while restarts, duplicated requests and lost responses are injected; after every delivered request the durable state is read with a private sqlite3 connection and checked for referential consistency, unique names and ownership of deletions; liveness probes ask every listed stream / multi-period stream for manifests of random templates and modes (never 5xx) and every uploaded-and-indexed file is read back through the on-demand and segment routes. Second stage (one run in four): two or three management operations are served concurrently on baton-passing threads (pre-emption at every SQL statement, commit, rollback, blob save and unlink; SQLite lock waits are scheduled, a deadlock is resolved like a busy timeout); the same referential rules are checked on the state the burst leaves, and whether that state equals some sequential order of the requests is counted in the evidence. Crash points (one run in eight): a management request is served on a baton thread and the process dies at its k-th seam (k enumerated by the run index over SQL statements, commit, rollback, blob save/unlink); uncommitted changes are lost, blob files stay as written, the server restarts and the same rules plus the read-back are evaluated",
+  "sampling; outside the bursts requests are atomic; disk-error faults (ENOSPC/EIO) and power-loss semantics are not injected; a crash is modelled as a BaseException at the seam (finally-blocks of the application still run); linearizability of bursts is measured (probes) but not judged because no listed property states it",
   TECH + "invariants on durable state after every event + liveness probes"),
  "C20": ("exploration",
   "the reader's two seams are simulator-owned: the clock behind Buffer.timestamp (ticking, frozen so that all timestamps tie, stepping backwards so that the newest buffer looks oldest - the seed thereby chooses the eviction order) and the underlying file (BytesIO or a real file on the simulated disk); seeded sequences of read(n), read(-1), seek (three whences, negative and beyond-end), tell and peek are compared operation by operation with io.BytesIO over the same (offset, size) window for buffer sizes 1..16384 including non-divisors and cache limits >= 2",
